@@ -121,6 +121,11 @@ JudgePartial(c, r, i, parts) ==
           ELSE IF PayloadLen(ps) > s.fed THEN "PayloadBound"
           ELSE JudgePartial(c, r, i + 1, ps)
 
+\* model drift for request-level lines replayed from FormLimits.tla: the model's predicted outcome
+\* (exp: err, consumed, nparts) vs. what the real Request did.  exp.err = "skip" for recorded-only lines.
+DriftReqOK(c, r) == r.exp.err = "skip" \/ (r.exp.err = r.res.err /\ r.exp.consumed = r.consumed
+                                           /\ (r.res.err # "" \/ r.exp.nparts = Len(r.res.fields) + Len(r.res.files)))
+
 Verdict(line, c) ==
   CASE line.op = "run"  -> JudgeSteps(c, line, 1, <<>>)
     [] line.op = "runpart" -> JudgePartial(c, line, 1, <<>>)
@@ -139,6 +144,8 @@ Next == /\ l <= Len(Lines)
                 /\ LET v == Verdict(line, cfg) IN
                    IF v = "ok" THEN TRUE
                    ELSE PrintT(ToJson([reject |-> 1, t |-> line.t, i |-> line.i, clause |-> v]))
+                /\ IF line.op # "req" \/ DriftReqOK(cfg, line) THEN TRUE
+                   ELSE PrintT(ToJson([drift |-> 1, t |-> line.t, i |-> line.i, what |-> "FormLimits model vs real Request outcome"]))
         /\ l' = l + 1
 
 Done == PrintT(ToJson([judged |-> Len(Lines)])) /\ TLCGet("generated") >= 0
